@@ -289,6 +289,8 @@ def rule_SH(run: Run) -> RuleResult:
         res.add(f"labrea.computation.Computation.{op}:effect skipped exactly when LABREA.EFFECTS.DISABLED", ok, cmod.relpath, co.methods[op].lineno,
                 f"{len(with_e)} paths with the effect, {len(without)} without", nec)
     ds = repo.cls("Dataset")
+    from .facts import effects_toggle
+    tog = effects_toggle(run)
     for nm, val in (("disable_effects", "True"), ("enable_effects", "False")):
         fn = ds.methods.get(nm)
         ok = fn is not None
@@ -296,7 +298,7 @@ def rule_SH(run: Run) -> RuleResult:
             tps = analyse_function(Ctx(repo), ds.module, fn, cls=ds)
             ok = bool(tps) and all(p.status == "ret" and [(e.args[1].key(), e.target.key() if e.target is not None else None) for e in p.events
                                                            if e.kind == "store" and len(e.args) == 2 and e.args[0].key() == "self"]
-                                   == [(Const("_effects_disabled").key(), f"Const({val})")] for p in tps)
+                                   == [(Const(tog).key(), f"Const({val})")] for p in tps)
         res.add(f"labrea.dataset.Dataset.{nm}:sets the per-dataset toggle", ok, ds.module.relpath, fn.lineno if fn else 0, "", nec)
     df = repo.cls("DatasetFactory")
     nc = df.methods.get("nocache")
@@ -746,8 +748,8 @@ def rule_MF(run: Run) -> RuleResult:
     repo = run.repo
     nec = ("validate, keys, explain and instantiation of a dataset class must enumerate the same members: a "
            "member evaluated but not keyed/validated breaks union-over-members and instance equality (C19)")
-    meta = repo.cls("_DatasetClassMeta")
-    mix = repo.cls("_DatasetClassMixin")
+    meta = repo.role_class("dsc_meta")
+    mix = repo.role_class("dsc_mixin")
     f = meta.module.relpath
     global _MF_MODULE
     _MF_MODULE = meta.module
@@ -811,10 +813,19 @@ def rule_MF(run: Run) -> RuleResult:
     eq = mix.methods.get("__eq__")
     rp = mix.methods.get("__repr__")
     ok = eq is not None and rp is not None
+    # the attribute that records the relevant options: what __eq__ compares on both sides (whatever it is called)
+    REC = "_repr_options"
+    if eq is not None:
+        import re as _re
+        for p in analyse_function(Ctx(repo), mix.module, eq, cls=mix):
+            if p.ret is not None:
+                mo_ = _re.search(r"cmp:Eq\(attr:(\w+)\(self\),attr:(\w+)\(\w+\)\)", p.ret.key())
+                if mo_ and mo_.group(1) == mo_.group(2):
+                    REC = mo_.group(1)
     if ok:
         oth = astu.param_names(eq)[0]
-        A_, B_ = f"call:isinstance({oth},attr:__class__(self))", f"cmp:Eq(attr:_repr_options(self),attr:_repr_options({oth}))"
-        B2_ = f"cmp:Eq(attr:_repr_options({oth}),attr:_repr_options(self))"
+        A_, B_ = f"call:isinstance({oth},attr:__class__(self))", f"cmp:Eq(attr:{REC}(self),attr:{REC}({oth}))"
+        B2_ = f"cmp:Eq(attr:{REC}({oth}),attr:{REC}(self))"
         for p in analyse_function(Ctx(repo), mix.module, eq, cls=mix):
             # equal exactly when other is an instance of the same class and the recorded relevant options are equal
             if p.status != "ret" or p.ret is None:
@@ -836,7 +847,7 @@ def rule_MF(run: Run) -> RuleResult:
                         if r_ is not None and r_ != (asg[A_] and asg[B_]):
                             good = False
             ok = ok and good
-        ok = ok and all(p.status == "ret" and p.ret is not None and "attr:_repr_options(self)" in p.ret.key() and "attr:__name__(attr:__class__(self))" in p.ret.key()
+        ok = ok and all(p.status == "ret" and p.ret is not None and f"attr:{REC}(self)" in p.ret.key() and "attr:__name__(attr:__class__(self))" in p.ret.key()
                         for p in analyse_function(Ctx(repo), mix.module, rp, cls=mix))
     res.add("labrea.datasetclass._DatasetClassMixin:__eq__ and __repr__ read the recorded relevant options", ok, f, eq.lineno if eq else 0, "", nec)
     ips = [p for p in analyse_function(Ctx(repo), mix.module, init, cls=mix) if p.status == "ret"]
@@ -844,7 +855,7 @@ def rule_MF(run: Run) -> RuleResult:
     ok = bool(ips)
     saw_rec = False
     for p in ips:
-        st = [e for e in p.events if e.kind == "store" and len(e.args) == 2 and e.args[0].key() == "self" and e.args[1].key() == Const("_repr_options").key()]
+        st = [e for e in p.events if e.kind == "store" and len(e.args) == 2 and e.args[0].key() == "self" and e.args[1].key() == Const(REC).key()]
         if not st:
             ok = False
         for e in p.events:
@@ -854,7 +865,7 @@ def rule_MF(run: Run) -> RuleResult:
                 import re as _re
                 mo_ = _re.search(r"call:keys\(attr:__class__\(self\),(" + _re.escape(optp) + r"|dict\{\})\)", k0)
                 good = len(e.args) == 3 and mo_ is not None and e.args[1].key() == f"call:confectioner.templating.get_dotted_key({k0},{mo_.group(1)})" \
-                    and (e.args[2].key() in ("attr:_repr_options(self)", "dict{}") or "_repr_options" in e.args[2].key())
+                    and (e.args[2].key() in (f"attr:{REC}(self)", "dict{}") or REC in e.args[2].key())
                 saw_rec = saw_rec or good
                 ok = ok and good
     res.add("labrea.datasetclass._DatasetClassMixin.__init__:records options restricted to the class's keys", ok and saw_rec, f, init.lineno, "", nec)
@@ -1084,15 +1095,19 @@ def rule_GA(run: Run) -> RuleResult:
         name = astu.param_names(ga)[0]
         stmts = [s for s in ga.body if not (isinstance(s, ast.Expr) and isinstance(s.value, ast.Constant))]
         guarded = False
+        eff_g = {id(n_): t_ for n_, t_ in astu.effective_tests(ga)}
         for s in stmts:
             if isinstance(s, ast.If) and any(isinstance(x, ast.Raise) for x in s.body):
-                t = ast.unparse(s.test)
+                t = ast.unparse(eff_g.get(id(s), s.test))
                 if f"{name}.startswith('_" in t or f"{name}.startswith(\"_" in t:
                     guarded = True
                     break
-            # any self access before the guard?
-            if any((isinstance(x, ast.Attribute) and isinstance(x.value, ast.Name) and x.value.id == "self") or
-                   (isinstance(x, ast.Subscript) and isinstance(x.value, ast.Name) and x.value.id == "self") for x in ast.walk(s)):
+            # any self access before the guard?  (self.__dict__ is found by normal lookup and cannot recurse)
+            if isinstance(s, ast.Assign) and len(s.targets) == 1 and isinstance(s.targets[0], ast.Name) and any(
+                    isinstance(nx, ast.If) and isinstance(nx.test, ast.Name) and nx.test.id == s.targets[0].id for nx in stmts):
+                continue        # the computation of the guard's own test
+            if any(((isinstance(x, ast.Attribute) and isinstance(x.value, ast.Name) and x.value.id == "self" and x.attr != "__dict__") or
+                    (isinstance(x, ast.Subscript) and isinstance(x.value, ast.Name) and x.value.id == "self")) for x in ast.walk(s)):
                 break
         res.add(f"{c.qualname}.__getattr__:rejects private names before touching instance state", guarded, c.module.relpath, ga.lineno,
                 "guarded" if guarded else f"reads instance state (`{ast.unparse(stmts[0])[:50]}`…) for any name, including __setstate__", nec)
